@@ -14,6 +14,7 @@ P[n] over line shapes (concrete text: the statements are executed on the real st
     reader are what the word handlers left them (a doubled code may straddle two lines).
 """
 from pycaption.scc import SCCReader, _SccTimeTranslator
+from pyvc.verify import args_by_name as N
 
 LINES = {
     "single": ("00:00:01:00", ["9420", "9470", "c1c2", "91ae", "43c4", "942f"]),
@@ -49,8 +50,8 @@ def translate_line(c):
     calls, stamps = [], []
 
     def h_word(interp, fn, args, kw):
-        a = list(args[1:]) + [kw[k] for k in ("word", "next_command") if k in kw]
-        calls.append((a[0], (a[1].strip() or None) if (len(a) > 1 and isinstance(a[1], str)) else None))
+        x = N(fn, args, kw)
+        calls.append((x["word"], (x["next_command"].strip() or None) if isinstance(x["next_command"], str) else None))
         stamps.append(interp.getattr(tt, "_time"))
         return None
     c.interp.contracts["pycaption.scc:SCCReader._translate_word"] = h_word
@@ -107,11 +108,11 @@ def read_head(c):
 
     def h_line(interp, fn, a, kw):
         tt = G(rd, "time_translator")
-        log.append(("line", a[1], G(tt, "offset"), G(rd, "simulate_roll_up"), tt is stale_tt, G(rd, "caption_stash"), G(rd, "buffer_dict"),
+        log.append(("line", N(fn, a, kw)["line"], G(tt, "offset"), G(rd, "simulate_roll_up"), tt is stale_tt, G(rd, "caption_stash"), G(rd, "buffer_dict"),
                     G(rd, "last_command"), G(rd, "double_starter"), G(rd, "pop_ons_queue"), G(rd, "roll_rows"), G(rd, "time")))
     q = "pycaption.scc:SCCReader."
     c.interp.contracts.update({q + "_translate_line": h_line,
-                               q + "_flush_implicit_buffers": lambda interp, fn, a, kw: log.append(("flush",) + tuple(a[1:2]))})
+                               q + "_flush_implicit_buffers": lambda interp, fn, a, kw: log.append(("flush", N(fn, a, kw)["old_key"]))})
     r = c.call(SCCReader.read, rd, content, "xx", roll, offset, raises=(CaptionReadNoCaptions,), compare=False)
     c.ensure("an_empty_stash_is_the_no_captions_error", isinstance(r, Raised))
     lines = [e_ for e_ in log if e_[0] == "line"]
